@@ -1207,7 +1207,7 @@ class BADS:
             )
 
             # Compute mesh size and search mesh size
-            self.mesh_size = self.options["poll_mesh_multiplier"] ** (
+            self.mesh_size = float(self.options["poll_mesh_multiplier"]) ** (
                 self.mesh_size_integer
             )
             self.optim_state["mesh_size"] = self.mesh_size
@@ -1221,7 +1221,7 @@ class BADS:
                 )
 
             self.optim_state["search_mesh_size"] = (
-                self.options["poll_mesh_multiplier"]
+                float(self.options["poll_mesh_multiplier"])
                 ** self.optim_state["search_size_integer"]
             )
             self.search_mesh_size = self.optim_state["search_mesh_size"]
@@ -2272,7 +2272,7 @@ class BADS:
 
         # Update mesh size
         self.mesh_size = (
-            self.options["poll_mesh_multiplier"] ** self.mesh_size_integer
+            float(self.options["poll_mesh_multiplier"]) ** self.mesh_size_integer
         )
         self.optim_state["mesh_size"] = self.mesh_size
 
